@@ -21,8 +21,42 @@ a wall-clock bound; any panic or time-out is a violation with the document as re
 namespace Props.C16
 open TaskModel.Decode
 
-/-- **Every panic-capable site is accounted for.** -/
+set_option maxRecDepth 8192 in
+/-- **Every panic-capable site is accounted for** — by occurrence: a second expression of the same shape in the same
+function is a site of its own, covered only if the recorded reason was extended to it. -/
 theorem all_panic_sites_discharged : TaskModel.Gen.PanicSites.sites.all isDischarged = true := by decide
+
+/-- non-vacuity: a further occurrence of a discharged shape is NOT discharged -/
+example : isDischarged ("task:Executor.GetTask", "index", "‹[]*task.MatchingTask›[0]", 1) = true ∧
+    isDischarged ("task:Executor.GetTask", "index", "‹[]*task.MatchingTask›[0]", 2) = false ∧
+    isDischarged ("internal/fingerprint:Globs", "nilelem", "range ‹[]*ast.Glob›: ‹*ast.Glob›.Glob", 0) = false := by decide
+
+/-- **The `compiled` reasons are facts, not comments**: every function whose loop over a list of a task is discharged by
+"the task is the compiled one" gets that task, at every call site of the module (through at most three levels of
+parameters), from `CompiledTask` / `FastCompiledTask` / `compiledTask` / `GetTaskList` — or the calling function is dead
+code.  False of the tree before fix O8-3 for `fingerprint.Globs` (watch mode handed it the task from `GetTask`). -/
+theorem compiled_reasons_checked : compiledConsumers.all (flowsOk 4) = true := by decide
+
+theorem compiled_consumers_present : compiledConsumers.length ≥ 7 := by decide
+
+/-- non-vacuity: the call that crashed (`Globs(dir, t.Sources)` with `t` from `GetTask`) would not pass, nor would a
+consumer nobody calls with a compiled task -/
+example : flowsOkIn [("internal/fingerprint:Globs", "task:Executor.watchTasks", "call", "task:Executor.GetTask"),
+                     ("internal/fingerprint:Globs", "task:Executor.registerWatchedDirs", "call", "task:Executor.CompiledTask")]
+            4 "internal/fingerprint:Globs" = false ∧
+    flowsOkIn [] 4 "internal/summary:printTaskCommands" = false ∧
+    flowsOkIn [("f", "g", "param", ""), ("g", "h", "call", "task:Executor.CompiledTask")] 4 "f" = true ∧
+    flowsOkIn [("f", "g", "param", ""), ("g", "h", "other", "x")] 4 "f" = false := by decide
+
+/-- **Every recursive function of the module has a recorded bound** (visited set, call counter, structural recursion
+on a finite value, or a static cycle that cannot be taken): `Gen.PanicSites.recursive` is the regenerated list of the
+functions on a cycle of the static call graph — a new one, or one whose name changed, breaks this.  (Loops are covered
+by the total Lean models of load / merge and by `C07_terminates_all`.) -/
+theorem all_recursion_bounded : TaskModel.Gen.PanicSites.recursive.all isBounded = true := by decide
+
+theorem recursion_table_nonempty : TaskModel.Gen.PanicSites.recursive.length ≥ 10 := by decide
+
+example : isBounded ("task:Executor.registerWatchedDirs·registerTaskDirs", "") = true ∧ isBounded ("task:someNewRecursion", "") = false := by decide
 
 /-- **The lists of the compiled task hold no nil element**, except the reviewed pass-through fields: every list-of-
 pointers field `compiledTask` fills is filtered (nil entries skipped) or produced by `ReplaceGlobs`; `Platforms` is
@@ -43,8 +77,19 @@ theorem sites_nonempty : TaskModel.Gen.PanicSites.sites.length ≥ 40 := by deci
 
 theorem C16_yaml_pairs (n i : Nat) (hn : n % 2 = 0) (hi : i % 2 = 0) (h : i < n) : i + 1 < n := mapping_pairs_in_range n i hn hi h
 
-/-- a panic or a time-out is never an acceptable outcome; success and diagnosed errors are -/
-theorem C16_outcomes : acceptable .panic = false ∧ acceptable .timeout = false ∧ acceptable .ok = true ∧ ∀ c, acceptable (.error c) = true :=
+/-- a panic or a time-out is never an acceptable outcome; success is; an error is acceptable exactly when its code is a
+DOCUMENTED one: a constant of errors/errors.go (`Gen.Codes.consts`) other than `CodeOk` -/
+theorem C16_outcomes : acceptable .panic = false ∧ acceptable .timeout = false ∧ acceptable .ok = true ∧
+    ∀ c, acceptable (.error c) = (c != 0 && TaskModel.Gen.Codes.consts.any (fun k => k.2 == c)) :=
   ⟨rfl, rfl, rfl, fun _ => rfl⟩
+
+/-- non-vacuity: 102 (decode error), 200 (no such task), 1 (unknown) are documented; 2 (what the Go runtime exits with
+after a panic), 137 (killed) and 0 (an "error" reported as success) are not -/
+example : acceptable (.error 102) = true ∧ acceptable (.error 200) = true ∧ acceptable (.error 1) = true ∧
+    acceptable (.error 2) = false ∧ acceptable (.error 137) = false ∧ acceptable (.error 0) = false := by decide
+
+/-- every error type of the errors package carries a documented code -/
+theorem error_types_documented :
+    TaskModel.Gen.Codes.errorCodes.all (fun e => acceptable (.error e.2)) = true := by decide
 
 end Props.C16
